@@ -54,9 +54,10 @@ Prefixes == {"app", "App", "MY_APP", "my_app2", "my-app"}
 
 CONSTANT SkipUnsetSections   \* FALSE: as coded.  TRUE (sensitivity): a nested section left entirely unset is not validated
 VARIABLES f1, s1, f2, s2, invalid, prefix, unsetSection,
+          zeroDefaults,   \* the supplied defaults structure sets nothing at all (every field zero): the file supplies what validation requires
           foreign,    \* an environment variable carrying the field's name WITHOUT the prefix is set as well (and a flag is bound under that short name): not a source
           flagForm    \* how the first subject's flag is bound: alone, or as the first / the second of two alternative flags (BindFlagsToEnv); the flag that is set is that one
-vars == <<f1, s1, f2, s2, invalid, prefix, unsetSection, foreign, flagForm>>
+vars == <<f1, s1, f2, s2, invalid, prefix, unsetSection, zeroDefaults, foreign, flagForm>>
 \* required fields that are the only required field of their section: the section can be left entirely unset (every field zero) and
 \* the offending field is still that one
 InSection(path, inv) == LET n == Len(inv) - 1 IN Len(path) > n /\ SubSeq(path, 1, n) = SubSeq(inv, 1, n)
@@ -74,6 +75,7 @@ Init == /\ f1 \in 1..NS /\ s1 \in NonEmptySubsets
         /\ unsetSection \in BOOLEAN /\ (unsetSection => (invalid \in SoleRequired /\ ~InSection(Fields[f1].path, invalid)))
         /\ foreign \in BOOLEAN /\ (foreign => (f2 = 0 /\ invalid = <<>> /\ "flagset" \notin s1 /\ "env" \notin s1))
         /\ flagForm \in {"single", "first", "second"} /\ (flagForm # "single" => ("flagset" \in s1 /\ f2 = 0 /\ invalid = <<>>))
+        /\ zeroDefaults \in BOOLEAN /\ (zeroDefaults => (f2 = 0 /\ invalid = <<>> /\ "def" \notin s1 /\ flagForm = "single" /\ ~foreign))
         \* the scenario space is kept tractable: the prefix varies with the first field only
         /\ prefix = (CHOOSE p \in Prefixes : TRUE) \/ (f2 = 0 /\ invalid = <<>>)
 Next == UNCHANGED vars
@@ -107,7 +109,7 @@ Scenario == [prefix |-> prefix,
              subjects |-> (IF f2 = 0 THEN <<[path |-> Fields[f1].path, kind |-> Fields[f1].kind, sources |-> s1, winner |-> Winner(s1), env |-> EnvName(prefix, Fields[f1].path)]>>
                            ELSE <<[path |-> Fields[f1].path, kind |-> Fields[f1].kind, sources |-> s1, winner |-> Winner(s1), env |-> EnvName(prefix, Fields[f1].path)],
                                   [path |-> Fields[f2].path, kind |-> Fields[f2].kind, sources |-> s2, winner |-> Winner(s2), env |-> EnvName(prefix, Fields[f2].path)]>>),
-             invalid |-> InvalidNames, unsetSection |-> unsetSection, flagForm |-> flagForm, foreign |-> foreign,
+             invalid |-> InvalidNames, unsetSection |-> unsetSection, flagForm |-> flagForm, foreign |-> foreign, zeroDefaults |-> zeroDefaults,
              envNames |-> AllEnvNames]
 Emit == PrintT(<<"BEHAVIOUR", ToJson(Scenario)>>)
 =============================================================================
